@@ -934,3 +934,30 @@ func (fi *FuncInfo) relReach(from, b *ssa.BasicBlock, memo map[int]*Formula) *Fo
 	memo[b.Index] = f
 	return f
 }
+
+// StructField returns the term of field f of the struct VALUE v (e.g. a composite literal passed
+// by value): the single value stored to that field of the local it was loaded from, or T(v).f.
+func (fi *FuncInfo) StructField(v ssa.Value, f *types.Var) *Term {
+	if u, ok := v.(*ssa.UnOp); ok && u.Op == token.MUL {
+		if al, ok := u.X.(*ssa.Alloc); ok && al.Parent() == fi.Fn && !fi.addrEscapes(al) && len(fi.storesTo[al]) == 0 {
+			var vals []ssa.Value
+			for a2, ss := range fi.storesTo {
+				if f2, ok := a2.(*ssa.FieldAddr); ok && f2.X == al && FieldOf(f2) == f {
+					for _, s := range ss {
+						vals = append(vals, s.Val)
+					}
+				}
+			}
+			if len(vals) == 1 {
+				return fi.T(vals[0])
+			}
+			if len(vals) == 0 {
+				// zero value
+				if isIntType(f.Type()) {
+					return constTerm(0)
+				}
+			}
+		}
+	}
+	return symTerm(fi.T(v).S + "." + f.Name())
+}
